@@ -359,6 +359,9 @@ pub struct Composite {
     pub id: u32,
     pub children: Vec<Child>,
     pub faults: Rc<Faults>,
+    /// false: a failing registration step returns at once (`?`-style user code), leaving the children registered so
+    /// far in the poller
+    pub rollback: bool,
 }
 
 impl Composite {
@@ -416,7 +419,9 @@ impl EventSource for Composite {
                 }
             };
             if let Err(e) = r {
-                self.unregister_upto(poll, i);
+                if self.rollback {
+                    self.unregister_upto(poll, i);
+                }
                 return Err(e);
             }
         }
